@@ -1,7 +1,7 @@
 (* C07 — property theorems. Nothing but statements closed by `exact <lemma>`, Print Assumptions beneath each,
    and the Examples (witness schedules: hypotheses are satisfiable, the three repaired defects stay documented). *)
 From Coq Require Import List Bool Arith NArith.
-From C07 Require Import Model ProofsInv ProofsIdx ProofsSafe ProofsCount ProofsFetch.
+From C07 Require Import Model ProofsInv ProofsIdx ProofsSafe ProofsCount ProofsFetch ProofsQuiesce.
 Import ListNotations.
 
 (* thm:C07_handover_no_gap, part 1 — the proxyFrac automaton. In EVERY state reachable by ANY label list (any
@@ -129,6 +129,42 @@ Theorem C07_fetch_published_active :
 Proof. exact fetch_active_chain. Qed.
 Print Assumptions C07_fetch_published_active.
 
+(* thm:C07_quiescent_equiv — in EVERY reachable state, for every fraction with no writer mid-bulk (indexWg = 0, which
+   by C07_handover_wg_zero_no_writer means no accepted Append is still being indexed), whatever interleaving led
+   there, the index is exact:
+     every entry of the ID table is in token t's posting iff its document carries t,
+     every entry lies inside the published range of a non-empty fraction,
+     every document of every accepted bulk has its ID in the table and a position,
+     the table holds only documents of accepted bulks.
+   These four facts determine the index up to the numbering of the LIDs (and the choice among documents that share
+   an ID). A sequential ingest of the same bulks, in ack order or any other, is just another label list, so it yields
+   an index with the same four facts; C07_quiescent_answers_equal then says both answer every query alike. *)
+Theorem C07_quiescent_equiv :
+  forall c n ls g f,
+    v_all_last (c_ver c) = true ->
+    nth_error (fracs (exec c (init c n) ls)) g = Some f -> f_wg f = 0 -> quiescent_index c f.
+Proof. exact quiescent. Qed.
+Print Assumptions C07_quiescent_equiv.
+
+Theorem C07_quiescent_answers_equal :
+  forall c f1 f2 q x,
+    quiescent_index c f1 -> quiescent_index c f2 ->
+    (forall wb, In wb (f_blocks f1) <-> In wb (f_blocks f2)) ->
+    (forall d d', blocks_docs c f1 d -> blocks_docs c f1 d' -> d_id d = d_id d' ->
+                  forall t, memN t (d_toks d) = memN t (d_toks d')) ->
+    answers f1 q x -> answers f2 q x.
+Proof. exact quiescent_answers_equal. Qed.
+Print Assumptions C07_quiescent_answers_equal.
+
+(* thm:C07_handover_no_gap, part 4 — what frac.Seal reads: from WaitWriteIdle on the fraction's index is the exact,
+   complete one, so the sealed fraction that replaces the active one holds every acknowledged document *)
+Theorem C07_handover_sealer_reads_exact_index :
+  forall c n ls g f,
+    v_all_last (c_ver c) = true ->
+    nth_error (fracs (exec c (init c n) ls)) g = Some f -> idle_passed (f_seal f) = true -> quiescent_index c f.
+Proof. exact sealer_reads_exact_index. Qed.
+Print Assumptions C07_handover_sealer_reads_exact_index.
+
 (* posting ⊆ appended LIDs: every LID in a token's sorted list or queue is below len(MIDs) of its fraction *)
 Theorem C07_reader_safe_postings_within_ids :
   forall c n ls g f t lid,
@@ -227,3 +263,12 @@ Example C07_index_nonvacuous :
 Proof.
   eexists; eexists. split; [vm_compute; reflexivity|]. split; [left; reflexivity|]. vm_compute. repeat split.
 Qed.
+
+(* non-vacuity of C07_quiescent_equiv and of the reader-safety theorems: two writers interleaved step by step on one
+   fraction, then idle: indexWg = 0, three table entries, a reader finishing a stepwise search *)
+Example C07_quiescent_nonvacuous :
+  let c := mkCfg v_now [[[d1]]; [[d2]]] qs0 in
+  let st := exec c (init c 3) (flat_map (fun _ => [LW 0; LW 1]) (repeat tt 11)) in
+  (exists f, nth_error (fracs st) 0 = Some f /\ f_wg f = 0%nat /\ length (f_ldocs f) = 3%nat /\ f_total f = 2%nat)
+  /\ last (run c st [LSnap 0; LSB 0 0 1; LR 0; LR 0; LR 0; LR 0]) OUnit = ORes [(10, 1)].
+Proof. split; [eexists; split; [vm_compute; reflexivity|]; repeat split|]; vm_compute; reflexivity. Qed.
